@@ -29,6 +29,12 @@ def run(rep, ctx):
     rep.run_rule("C04.R1", "every binary dunder of Scalar and Array dispatches to the matching operation with the right operand order", r1_dispatch, ctx)
     rep.run_rule("C04.R2", "Multiply/Divide/FloorDivide hand the matching exponent and value operators to the new-quantity routine", r2_op_table, ctx)
     rep.run_rule("C04.R3", "exponents are merged in operand order, zero exponents are removed on every path, values are combined in order", r3_merge_and_removal, ctx)
+    from . import c13
+    rep.rule("C04.R6", "the conversions applied while matching units leave the operands' stored values alone (shared with C13.R5)")
+    try:
+        borrow(rep, c13.r5_no_inplace_in_conversions, ctx, "C13.R5", "C04.R6")
+    except AnalysisError as e:
+        rep.error("C04.R6", str(e))
     rep.run_rule("C04.R4", "__pow__ multiplies self exponent-1 times", r4_pow, ctx)
     from . import c03
     rep.rule("C04.R5", "unit matching converts the value whenever it rewrites a unit label, scaled by the entry's exponent (shared with C03.R3/R5)")
